@@ -83,6 +83,7 @@ class ItemSpec:
         self.refself = False
         self.stub = False
         self.raw = None       # (text, line) for @raw blocks
+        self.optional = set() # indices into ats
 
 
 def parse_overlay(path):
@@ -102,8 +103,10 @@ def parse_overlay(path):
         elif kind == 'raw':
             cur.raw = (text, ln)
         else:
-            side, nth, anchor = payload
+            side, nth, anchor, opt = payload
             cur.ats.append((side, nth, anchor, text, ln))
+            if opt:
+                cur.optional.add(len(cur.ats) - 1)
         block = None
     with open(path) as f:
         for n, raw in enumerate(f, 1):
@@ -144,11 +147,13 @@ def parse_overlay(path):
                     block = ('raw', None, [], n + 1)
                 elif d == 'spec':
                     block = ('spec', None, [], n + 1)
-                elif d == 'at':
+                elif d in ('at', 'at_opt'):
+                    # @at_opt: an insertion that is only needed if its anchor exists (closure
+                    # decorations): skipped, and reported, when the anchor is gone
                     m2 = re.match(r'(before|after)\s+(\d+)\s+<<(.*)>>\s*$', arg)
                     if not m2:
                         raise ValueError('%s:%d bad @at' % (path, n))
-                    block = ('at', (m2.group(1), int(m2.group(2)), m2.group(3)), [], n + 1)
+                    block = ('at', (m2.group(1), int(m2.group(2)), m2.group(3), d == 'at_opt'), [], n + 1)
                 elif d == 'end':
                     cur = None
                 elif d == 'comment':
@@ -362,9 +367,12 @@ def splice_item(asm, spec, probe=False):
         raise Unsupported('%s: @spec/@ret on a non-fn item' % spec.selector)
     if spec.stub:
         ins.append((it.body_close - base, order, ' unimplemented!() ', spec.line, spec.props, 'inline')); order += 1
-    for side, nth, anchor, text, ln in spec.ats:
+    for ai, (side, nth, anchor, text, ln) in enumerate(spec.ats):
         rx = anchor_regex(anchor)
         ms = list(rx.finditer(item_src))
+        if len(ms) < nth and ai in spec.optional:
+            asm.dropped.append((spec.file, spec.selector, 'SKIPPED optional insertion (anchor gone): %s' % anchor[:40], 1))
+            continue
         if len(ms) < nth:
             raise LostAnchor('%s: anchor <<%s>> #%d not found in %s' %
                              (spec.selector, anchor, nth, spec.file))
